@@ -268,14 +268,14 @@ def check_C19(chk):
         api_stage(chk, "C19", bins, ["default", "memfd", "inprocess"], 900 if thorough else 90, 60)
 
 
-def api_stage(chk, prop, bins, flavours, nprog, nops, seed_off=21):
+def api_stage(chk, prop, bins, flavours, nprog, nops, seed_off=21, p_poison=0.08):
     """programs over the whole public API (regions as handles, receiver sets, one-shot servers, undecodable messages) on several
     builds: results must be equal across builds, equal to the generator's reference and equal to the Coq model Api.v"""
     from . import api as A
     rng = random.Random(chk.seed + seed_off)
     progs, exps = [], {}
     for i in range(nprog):
-        ops, exp = A.gen_program(rng, nops)
+        ops, exp = A.gen_program(rng, nops, p_poison=p_poison)
         progs.append((i, ops))
         exps[i] = exp
     out = {}
